@@ -711,6 +711,8 @@ def plan(tier):
         for b in BASES:
             runs.append(("nonames", b, 99, True))
             runs.append(("full", b, 3, True))
+        for b in ("mixed", "opt/copt", "empty/opt+arg"):
+            runs.append(("full", b, 4, True))
         for b in ("none", "mixed", "arg/arg"):
             runs.append(("names", b, 7, True))
         runs.append(("full", "mixed", 2, False))
@@ -790,7 +792,7 @@ def main():
     cut = []
     for i, r in zip(order, results):
         alpha, base, depth, dedup, _ = parts[i]
-        name = "%s@%s%s" % (alpha, base, "" if dedup else ":nodedup")
+        name = "%s@%s%s%s" % (alpha, base, "" if depth == 99 else ":depth%d" % depth, "" if dedup else ":nodedup")
         allv.extend(r.pop("violations"))
         for smp in r.pop("samples"):
             rep.sample({"part": name, "history": smp}, cap=6)
